@@ -344,6 +344,33 @@ def pair_worker(job):
     return st
 
 
+def long_subject_worker(job):
+    """Patterns with three '*' against names of 60-120 characters that DO match, but only through an early split point: a few
+    thousand to a few hundred thousand backtracking steps, far below anything an engine may legitimately give up on."""
+    k, nrows, seed = job
+    st = Stats()
+    rng = common.rng_for(seed, "C12long", k)
+    base = common.mkscratch("C12l%d" % k)
+    try:
+        for kind in ("-name", "-iname", "-path"):
+            rows = []
+            for _ in range(nrows):
+                a, b, c = rng.sample(["a", "b", "c", "x", "yz", "_"], 3)
+                pat = rng.choice(["*%s*%s*%s%s*" % (a, b, b, c), "*[%s]*[%s]*[%s]*" % (a, b, c), "%s*%s*%s*%s" % (a, b, c, a), "*%s?*%s?*%s" % (a, b, c),
+                                  "*%s*%s*%s" % (a, b, c)])
+                subs = set()
+                for _ in range(4):
+                    tail_ = "".join(rng.choice([a, b, a + b]) for _ in range(rng.randint(40, 70)))
+                    head_ = a + b + b + c
+                    subs |= {head_ + tail_, tail_ + head_, (a + tail_ + c + a)[:120], tail_[:100], a + tail_ + b + c + a}
+                rows.append((pat, sorted(s_ for s_ in subs if len(s_) <= 130)))
+            run_rows(st, base, kind, rows)
+            st.inc("long_subject_rows:" + kind, len(rows))
+    finally:
+        common.force_rmtree(base)
+    return st
+
+
 def lname_worker(job):
     """-lname/-ilname on real symbolic links whose target text is the subject; also checks that the subject is the
     target and not the link's own name, and runs the same patterns through the find binary with -name on real files."""
@@ -562,6 +589,7 @@ def run(ctx):
     ctx.pmap(random_worker, [(k, nrand // nw, ctx.seed) for k in range(nw)])
     nl = ctx.scale(320, 8000)
     ctx.pmap(lname_worker, [(k, nl // nw, ctx.seed) for k in range(nw)])
+    ctx.pmap(long_subject_worker, [(k, ctx.scale(12, 400), ctx.seed) for k in range(nw)])
     ctx.pmap(pair_worker, [(k, ctx.scale(100, 6000), ctx.seed) for k in range(nw)])
     ctx.require("pair_evaluations_where_the_two_modes_differ", 50)
     ctx.pmap(raw_name_worker, [(k, ctx.scale(6, 400), ctx.seed) for k in range(nw)])
